@@ -11,7 +11,7 @@ if ! git -C $WT apply $PATCH 2>/tmp/seedrun/out/$S.apply; then
   echo "$S patch-does-not-apply"; git -C /repo worktree remove --force $WT; exit 0; fi
 cd /verif
 # separate evidence/replay dirs are not needed: the check writes evidence/<P>.json; run sequentially per property
-BIONUMPY_REPO=$WT timeout 1500 ./check $P ${2:-} > /tmp/seedrun/out/$S.out 2>&1; rc=$?
+VERIF_EVIDENCE_DIR=/tmp/seedrun/ev/$S BIONUMPY_REPO=$WT timeout 1500 ./check $P ${2:-} > /tmp/seedrun/out/$S.out 2>&1; rc=$?
 nv=$(grep -c '^VIOLATION' /tmp/seedrun/out/$S.out); nu=$(grep -c '^UNDECIDED' /tmp/seedrun/out/$S.out)
 first=$(grep '^VIOLATION' /tmp/seedrun/out/$S.out | head -2 | sed 's/VIOLATION property=[A-Z0-9]* replay=[^ ]* //' | tr '\n' ';' | cut -c1-220)
 echo "$S exit=$rc violations=$nv undecided=$nu :: $first"
